@@ -374,6 +374,17 @@ let run_path kind toks =
     let (st, _, _) = nstyle c in
     let p = npath c in
     path_result id (PathOps.stroke_to_path p st)
+  | "pcontz" ->
+    (* exact coordinates: winding x y n (M|L x y | Z)* ; prints code-model and declarative answers *)
+    let rule = if nint c = 0 then Raster.NonZero else Raster.EvenOdd in
+    let x = nz c in let y = nz c in
+    let n = nint c in
+    let ops = ntimes n (fun () -> match next c with
+      | "M" -> let a = nz c in let b = nz c in Contains.ZMove (a, b)
+      | "L" -> let a = nz c in let b = nz c in Contains.ZLine (a, b)
+      | "Z" -> Contains.ZClose
+      | t -> failwith ("pcontz op " ^ t)) in
+    Printf.printf "%s ok %b %b\n" id (Contains.contains_Z rule ops x y) (Contains.contains_spec rule ops x y)
   | "prect" ->
     let x = nf c in let y = nf c in let w = nf c in let h = nf c in
     path_result id (Base.Ok { PathF.p_ops = PathOps.builder_rect x y w h; PathF.p_winding = Raster.NonZero })
@@ -393,7 +404,7 @@ let () =
       | "surfspec" :: rest -> run_surface_spec rest
       | "scene" :: rest -> run_scene rest
       | "specscene" :: rest -> run_specscene rest
-      | ("pcontains" | "pflatten" | "pdash" | "pstroke" | "prect" | "ptransform" as k) :: rest -> run_path k rest
+      | ("pcontains" | "pflatten" | "pdash" | "pstroke" | "prect" | "ptransform" | "pcontz" as k) :: rest -> run_path k rest
       | t :: _ -> failwith ("unknown case kind " ^ t)
     done
   with End_of_file -> ()
